@@ -167,7 +167,8 @@ private:
             read_text_row< View_Src >( dst, row, y, false );
         }
 
-        for( y_t y = 0; y < dst.height(); ++y )
+        // the rows of the requested region: a destination view may be larger than the region
+        for( y_t y = 0; y < this->_settings._dim.y; ++y )
         {
             read_text_row< View_Src >( dst, row, y, true );
         }
@@ -336,7 +337,8 @@ private:
                         );
         }
 
-        for( y_t y = 0; y < view.height(); ++y )
+        // the rows of the requested region: a destination view may be larger than the region
+        for( y_t y = 0; y < this->_settings._dim.y; ++y )
         {
             this->_io_dev.read( reinterpret_cast< byte_t* >( rh.data() )
                         , this->_scanline_length
